@@ -79,6 +79,17 @@ def missing_rule(repo: Repo, rep: Report, rid: str) -> None:
     kw = [k.arg for k in ci.node.keywords]
     rep.check("IntFlag" in ci.bases and "boundary" not in kw, rid, "types/flag.py:Flag:bases", "IntFlag without a boundary (KEEP semantics)",
               f"Flag bases {ci.bases} / keywords {kw}: unknown bits would be rejected or dropped", f"{ci.module.path}:{ci.node.lineno}")
+    # negative values: IntFlag (Python >= 3.11) maps a negative value onto the bits of the known members, so a flag over a signed type needs its own
+    # _missing_ (as Enum has) or signed underlying types must be refused for flags
+    own_missing = "_missing_" in ci.methods
+    mk = repo.func("cstruct.py", "cstruct._make_flag")
+    refuses_signed = any(isinstance(x, ast.Raise) for x in walk_body(mk.node.body)) or any(
+        isinstance(x, ast.Raise) and "signed" in norm(x) for f_ in repo.cls("EnumMetaType").methods.values() for x in walk_body(f_.node.body))
+    rep.check(own_missing or refuses_signed, rid, "types/flag.py:Flag:negative values", "negative values are preserved (own _missing_) or signed flag types are refused",
+              "Flag has no _missing_ of its own and flags over signed types are accepted: for a negative underlying integer IntFlag (Python >= 3.11) substitutes "
+              "the bits of the known members, so the parsed value is not the integer that was read and dumping writes another byte "
+              "(flag f : int8 { A = 1 }; on b'\\xff' gives <f.A: 1> and dumps b'\\x01'), while Enum keeps it through its _missing_",
+              f"{ci.module.path}:{ci.node.lineno}")
     ce = repo.cls("Enum")
     rep.check("IntEnum" in ce.bases, rid, "types/enum.py:Enum:bases", "IntEnum", f"Enum bases {ce.bases}", f"{ce.module.path}:{ce.node.lineno}")
     call = repo.func("types/enum.py", "EnumMetaType.__call__")
